@@ -254,6 +254,24 @@ func setAt(root interface{}, path jpath, v interface{}) interface{} {
 	return mutateAt(root, path, "replace", v)
 }
 
+var hostileStrings = []string{".", "..", "$", "$1", "a..$1", ".$1", "$1.", "a.$.b", "$$", "*", ">", ">.a", "a b c", " ", "*.>", "a.*.$2.>",
+	"-", "S", "SU", strings.Repeat("x.", 300) + "$1", "\x00", "é.$1..", "local..$1"}
+
+func nodeAt(root interface{}, path jpath) interface{} {
+	cur := root
+	for _, p := range path {
+		switch x := cur.(type) {
+		case map[string]interface{}:
+			cur = x[p.(string)]
+		case []interface{}:
+			cur = x[p.(int)]
+		default:
+			return nil
+		}
+	}
+	return cur
+}
+
 func runC11(c *Ctx) {
 	w := c.newCaseWriter("ns", "From JWT Require Import Model.NilSafety.", "nscase", "nscase_ok")
 	kr := newKeyring()
@@ -299,6 +317,16 @@ func runC11(c *Ctx) {
 						how  string
 						repl interface{}
 					}{"replace", r})
+				}
+				// string-valued nodes additionally take hostile strings (subjects with empty tokens, "$" references,
+				// wildcards and blanks in odd places, over-long text)
+				if _, isStr := nodeAt(tree, p).(string); isStr {
+					for _, hs := range hostileStrings {
+						muts = append(muts, struct {
+							how  string
+							repl interface{}
+						}{"replace", hs})
+					}
 				}
 				for _, m := range muts {
 					n++
@@ -401,7 +429,7 @@ func runC11(c *Ctx) {
 		c.count("arbitrary_bytes")
 	}
 	// the modelled sites, with the same inputs evaluated in Coq
-	subjPool := []string{"", "a", "a.b", "*", ">", "a.*", "a.>", ".", "..", "a..b", ".a", "a.", "*.*", "a.b.c.d", "$1", "$", "x.$1.$22", "a b", "$a", "$-1"}
+	subjPool := []string{"local..$1", ".$1", "$1.", "a..b.$2", "", "a", "a.b", "*", ">", "a.*", "a.>", ".", "..", "a..b", ".a", "a.", "*.*", "a.b.c.d", "$1", "$", "x.$1.$22", "a b", "$a", "$-1"}
 	for _, s := range subjPool {
 		for _, o := range subjPool {
 			var got bool
